@@ -11,8 +11,12 @@ LEVEL_NOTE = ("trusted: Lean 4.33 kernel with propext/Classical.choice/Quot.soun
 CLAIMS = {
     "C01": ("Lean theorems: for load and worksteal the controller's ledger (pool + books + completed + crashed = all indices + re-queued, "
             "as multisets) is invariant along every sequence of scheduler calls, hence exactly-once and 'not finished before all are completed'; "
-            "the scheduler models (all five load-balancing classes) are tied to the real classes by a per-run differential check",
-            "contract refinement + multiset ledger invariant (Lean 4) ; differential correspondence of the scheduler models"),
+            "whole system (load, runs without worker loss): in every reachable state of the composed transition system (controller, receiver threads, workers' two threads, channels; any interleaving) "
+            "the indices of the agreed collection are - each exactly once - in the pool or in one worker's account (started by its main thread, announced, queued, on their way), hence no test is started twice or on two "
+            "workers, and once nothing is outstanding every test has been started exactly once (C01_sys_load_ledger, _started_at_most_once, _all_started_when_idle); "
+            "the scheduler models (all five load-balancing classes) are tied to the real classes by a per-run differential check. Partial: worksteal and the loadscope family at whole-system level, and the "
+            "publication of the reports, are validated by the simulation monitors, not proved",
+            "contract refinement + multiset ledger invariant; whole-system ledger invariant preserved by every step kind + induction over reachability (Lean 4) ; differential correspondence of the scheduler models; step-by-step replay of simulated runs by the Lean system model with the invariants (incl. the ledger) evaluated after every step"),
     "C03": ("Lean theorems: remove_node returns the head of the dead node's book as the crash item and the tail to the pool (load, worksteal); "
             "with any number of crashes every index is outstanding, completed or crash-reported exactly once",
             "contract refinement + ledger invariant with crash ghost (Lean 4) ; differential correspondence incl. crash/replacement sequences"),
